@@ -64,13 +64,22 @@ def make_trial(rng, kind, norb, nelec, n_batch=1):
 
 
 def make_system(rng, trial_kind="uhf", walker_type="unrestricted", norb=4, nelec=(2, 2), nchol=3, n_walkers=4,
-                dt=0.01, n_batch=1, prop_batch=1, spin_dep=False, seed=0, h_scale=1.0, l_scale=0.5, init_walkers=None):
+                dt=0.01, n_batch=1, prop_batch=1, spin_dep=False, seed=0, h_scale=1.0, l_scale=0.5, init_walkers=None,
+                converge=0):
     import jax.numpy as jnp
     from jax import random as jr
     from ad_afqmc import hamiltonian, propagation
     ham = hamiltonian.hamiltonian(norb)
     ham_data = random_ham(rng, norb, nchol, spin_dep, h_scale, l_scale)
     trial, wave_data = make_trial(rng, trial_kind, norb, nelec, n_batch)
+    for _ in range(converge):
+        # SCF-converge the trial orbitals for this Hamiltonian (rhf / uhf), keep rdm1 consistent
+        wave_data = trial.optimize(dict(ham_data), dict(wave_data))
+        mo = wave_data["mo_coeff"]
+        if isinstance(mo, (list, tuple)):
+            wave_data["rdm1"] = jnp.array([mo[0] @ mo[0].T, mo[1] @ mo[1].T])
+        else:
+            wave_data["rdm1"] = jnp.array([mo @ mo.T, mo[:, :nelec[1]] @ mo[:, :nelec[1]].T])
     if walker_type == "restricted":
         prop = propagation.propagator_restricted(dt=dt, n_walkers=n_walkers, n_batch=prop_batch)
     else:
